@@ -216,7 +216,7 @@ func Gen(prop string, r *sim.Rand, tier string) sim.Script {
 		case 3:
 			s.Ops = append(s.Ops, WOp{K: "root"})
 		case 4:
-			s.Ops = append(s.Ops, WOp{K: "commit", N: r.Intn(5), Sync: r.Chance(3, 4)})
+			s.Ops = append(s.Ops, WOp{K: "commit", N: r.Intn(5), Sync: r.Chance(3, 4), D: prop == "C11" && r.Chance(1, 2)})
 			if r.Chance(2, 3) {
 				s.Ops = append(s.Ops, WOp{K: "gc"})
 			}
